@@ -1,4 +1,5 @@
 CFG = {
+    "unclaimed": True,
     "level": "proof",
     "level_text": "partial",
     "level_note": "tbd",
